@@ -949,6 +949,1240 @@ fn run_chain(out: &mut Out, rng: &mut Rng, thorough: bool) {
 	stats.dump(out, "chain");
 }
 
+// ---------------------------------------------------------------------------------------------
+// known mode: mutated copies of ALREADY KNOWN headers (same proof nonces => same hash)
+// ---------------------------------------------------------------------------------------------
+
+fn h64(h: &Hash) -> u64 {
+	h.to_u64()
+}
+
+/// FNV-1a over the full serialisation: stands for every field the rules do not read
+fn digest(h: &BlockHeader) -> u64 {
+	let bytes = ser::ser_vec(h, ProtocolVersion::local()).unwrap_or_default();
+	let mut x: u64 = 0xcbf29ce484222325;
+	for b in bytes {
+		x ^= b as u64;
+		x = x.wrapping_mul(0x100000001b3);
+	}
+	x
+}
+
+fn show_tip(t: &grin_chain::Tip) -> String {
+	format!(
+		"{}:{}:{}:{}",
+		h64(&t.last_block_h),
+		h64(&t.prev_block_h),
+		t.height,
+		t.total_difficulty.to_num()
+	)
+}
+
+/// `hash:prev:rest` + the rule fields: what `get_block_header` shows
+fn show_stored(h: &BlockHeader) -> String {
+	format!("{}:{}:{}:{}", h64(&h.hash()), h64(&h.prev_hash), digest(h), show_hdr(h))
+}
+
+struct KnownRun {
+	stats: Stats,
+	/// honest (prev_hash -> prev_root) pairs: the header-MMR root on the path to that parent
+	roots: BTreeMap<Vec<u8>, Hash>,
+	oracle_fails: u64,
+	/// tips of honest headers the subject knows (candidates for the caller's sync head)
+	tips: Vec<grin_chain::Tip>,
+	sync_calls: u64,
+}
+
+impl KnownRun {
+	fn rootok(&self, h: &BlockHeader) -> bool {
+		h.height == 0 || self.roots.get(&h.prev_hash.to_vec()) == Some(&h.prev_root)
+	}
+
+	/// a header as delivered, with the answers of the cycle verifier and of the root comparison
+	fn fhdr(&self, h: &BlockHeader) -> String {
+		let powok = pc(|| pow::verify_size(h).is_ok()).unwrap_or(false);
+		format!(
+			"{}:{}:{}:{}:{}:{}",
+			h64(&h.hash()),
+			h64(&h.prev_hash),
+			digest(h),
+			if powok { 1 } else { 0 },
+			if self.rootok(h) { 1 } else { 0 },
+			show_hdr(h)
+		)
+	}
+
+	fn state(&self, out: &mut Out, id: &str, c: &Chain) -> String {
+		let s = format!(
+			"{} {}",
+			show_tip(&c.header_head().unwrap()),
+			show_tip(&c.head().unwrap())
+		);
+		out.line(&format!("cons node {} state", id), &s);
+		s
+	}
+
+	fn stored(&self, out: &mut Out, id: &str, c: &Chain, hash: &Hash) -> String {
+		let s = match c.get_block_header(hash) {
+			Ok(h) => show_stored(&h),
+			Err(_) => "none".to_string(),
+		};
+		out.line(&format!("cons node {} get {}", id, h64(hash)), &s);
+		s
+	}
+
+	fn sync(&mut self, out: &mut Out, id: &str, c: &Chain, skip: bool, batch: &[BlockHeader]) -> String {
+		// the caller's sync head: usually header_head, sometimes an older known header (as while
+		// a peer's fork is being synced)
+		self.sync_calls += 1;
+		let sync_head = if !self.tips.is_empty() && self.sync_calls % 4 == 0 {
+			self.stats.hit("sync_head_older");
+			self.tips[(self.sync_calls / 4) as usize % self.tips.len()].clone()
+		} else {
+			c.header_head().unwrap()
+		};
+		let opts = if skip { Options::SKIP_POW } else { Options::NONE };
+		let toks: Vec<String> = batch.iter().map(|h| self.fhdr(h)).collect();
+		let r = pc(|| c.sync_block_headers(batch, sync_head.clone(), opts));
+		let class = match &r {
+			None => "panic".to_string(),
+			Some(Ok(Some(_))) => "ok:some".to_string(),
+			Some(Ok(None)) => "ok:none".to_string(),
+			Some(Err(e)) => chain_err_class(e),
+		};
+		out.line(
+			&format!(
+				"cons node {} sync {} {} [{}]",
+				id,
+				if skip { 1 } else { 0 },
+				show_tip(&sync_head),
+				toks.join(",")
+			),
+			&class,
+		);
+		self.stats.hit(&format!("sync_{}", class));
+		class
+	}
+
+	fn pbh(&mut self, out: &mut Out, id: &str, c: &Chain, skip: bool, h: &BlockHeader) -> String {
+		let opts = if skip { Options::SKIP_POW } else { Options::NONE };
+		let r = pc(|| c.process_block_header(h, opts));
+		let class = match &r {
+			None => "panic".to_string(),
+			Some(Ok(())) => "ok".to_string(),
+			Some(Err(e)) => chain_err_class(e),
+		};
+		out.line(
+			&format!("cons node {} pbh {} {}", id, if skip { 1 } else { 0 }, self.fhdr(h)),
+			&class,
+		);
+		self.stats.hit(&format!("pbh_{}", class));
+		class
+	}
+
+	/// `process_block` of `body` carrying header `h`; `bodyok`: the body belongs to this header
+	fn pb(&mut self, out: &mut Out, id: &str, c: &Chain, skip: bool, h: &BlockHeader, body: &Block) -> String {
+		let opts = if skip { Options::SKIP_POW } else { Options::NONE };
+		let bodyok = digest(h) == digest(&body.header);
+		let mut b = body.clone();
+		b.header = h.clone();
+		let r = pc(|| c.process_block(b, opts).map(|_| ()));
+		let class = match &r {
+			None => "panic".to_string(),
+			Some(Ok(())) => "ok".to_string(),
+			Some(Err(e)) => {
+				let cl = chain_err_class(e);
+				match cl.as_str() {
+					"Unfit" | "OldBlock" | "Orphan" | "InvalidBlockHeight" | "InvalidBlockVersion"
+					| "InvalidBlockTime" | "InvalidMMRSize" | "TooHeavy" | "LowEdgebits" | "InvalidPow"
+					| "DifficultyTooLow" | "WrongTotalDifficulty" | "InvalidScaling" | "InvalidRoot"
+					| "Other" | "StoreErr" => cl,
+					_ => "Body".to_string(),
+				}
+			}
+		};
+		out.line(
+			&format!(
+				"cons node {} pb {} {} {}",
+				id,
+				if skip { 1 } else { 0 },
+				if bodyok { 1 } else { 0 },
+				self.fhdr(h)
+			),
+			&class,
+		);
+		self.stats.hit(&format!("pb_{}", class));
+		class
+	}
+
+	fn fail(&mut self, out: &mut Out, msg: String) {
+		self.oracle_fails += 1;
+		out.raw(&format!("#ORACLE-FAIL C04 {}", msg));
+	}
+}
+
+/// every non-proof single-field mutation of a known header `k` (parent `parent`): the proof
+/// nonces are kept, so the hash is `k`'s; each also with a claimed total difficulty above
+/// the current `header_head`
+fn known_mutants(
+	k: &BlockHeader,
+	parent: &BlockHeader,
+	gp: Option<Hash>,
+	hh_td: u64,
+	rng: &mut Rng,
+) -> Vec<(String, BlockHeader)> {
+	let mut base: Vec<(String, BlockHeader)> = vec![];
+	let mut add = |kind: &str, f: &dyn Fn(&mut BlockHeader)| {
+		let mut h = k.clone();
+		f(&mut h);
+		base.push((kind.to_string(), h));
+	};
+	let pts = parent.timestamp.timestamp();
+	let far = Utc::now().timestamp() + 86_400 * 365;
+	let rh = [
+		Hash::from_vec(&rng.bytes(32)),
+		Hash::from_vec(&rng.bytes(32)),
+		Hash::from_vec(&rng.bytes(32)),
+		Hash::from_vec(&rng.bytes(32)),
+		Hash::from_vec(&rng.bytes(32)),
+	];
+	let big = rng.range(1 << 20, 1 << 40);
+	add("height+1", &|h| h.height += 1);
+	add("height-1", &|h| h.height = h.height.wrapping_sub(1));
+	add("ts+1", &|h| set_ts(h, h.timestamp.timestamp() + 1));
+	add("ts-1", &|h| set_ts(h, h.timestamp.timestamp() - 1));
+	add("ts=prev", &|h| set_ts(h, pts));
+	add("ts=far-future", &|h| set_ts(h, far));
+	add("version+1", &|h| h.version = HeaderVersion(h.version.0 + 1));
+	add("version-1", &|h| h.version = HeaderVersion(h.version.0.wrapping_sub(1)));
+	add("prev_hash=random", &|h| h.prev_hash = rh[0]);
+	if let Some(g) = gp {
+		add("prev_hash=grandparent", &|h| h.prev_hash = g);
+	}
+	add("prev_root=random", &|h| h.prev_root = rh[1]);
+	add("output_root=random", &|h| h.output_root = rh[2]);
+	add("range_proof_root=random", &|h| h.range_proof_root = rh[3]);
+	add("kernel_root=random", &|h| h.kernel_root = rh[4]);
+	add("total_kernel_offset=random", &|h| {
+		h.total_kernel_offset = grin_keychain::BlindingFactor::from_slice(&rh[0].to_vec())
+	});
+	add("total_difficulty+1", &|h| {
+		h.pow.total_difficulty = Difficulty::from_num(h.pow.total_difficulty.to_num() + 1)
+	});
+	add("total_difficulty-1", &|h| {
+		h.pow.total_difficulty = Difficulty::from_num(h.pow.total_difficulty.to_num() - 1)
+	});
+	add("total_difficulty+big", &|h| {
+		h.pow.total_difficulty = Difficulty::from_num(h.pow.total_difficulty.to_num() + big)
+	});
+	add("secondary_scaling+1", &|h| h.pow.secondary_scaling = h.pow.secondary_scaling.wrapping_add(1));
+	add("secondary_scaling-1", &|h| h.pow.secondary_scaling = h.pow.secondary_scaling.wrapping_sub(1));
+	add("nonce+1", &|h| h.pow.nonce = h.pow.nonce.wrapping_add(1));
+	add("output_mmr_size+", &|h| {
+		h.output_mmr_size = grin_core::core::pmmr::insertion_to_pmmr_index(
+			grin_core::core::pmmr::n_leaves(h.output_mmr_size) + 1,
+		)
+	});
+	add("output_mmr_size=prev", &|h| h.output_mmr_size = parent.output_mmr_size);
+	add("kernel_mmr_size+", &|h| {
+		h.kernel_mmr_size = grin_core::core::pmmr::insertion_to_pmmr_index(
+			grin_core::core::pmmr::n_leaves(h.kernel_mmr_size) + 1,
+		)
+	});
+	add("kernel_mmr_size=prev", &|h| h.kernel_mmr_size = parent.kernel_mmr_size);
+	add("output_mmr_size+heavy", &|h| {
+		h.output_mmr_size = grin_core::core::pmmr::insertion_to_pmmr_index(
+			grin_core::core::pmmr::n_leaves(h.output_mmr_size) + 40,
+		)
+	});
+	let mut out = vec![];
+	for (kind, h) in base {
+		// the same mutation with a claimed total difficulty above the current header_head
+		let mut h2 = h.clone();
+		h2.pow.total_difficulty = Difficulty::from_num(hh_td + 1 + rng.below(1000));
+		out.push((kind.clone(), h));
+		out.push((format!("{}&td>header_head", kind), h2));
+	}
+	// the claimed total difficulty alone
+	let mut h3 = k.clone();
+	h3.pow.total_difficulty = Difficulty::from_num(hh_td + 1);
+	out.push(("td=header_head+1".to_string(), h3));
+	out
+}
+
+fn run_known(out: &mut Out, rng: &mut Rng, thorough: bool) {
+	global::set_local_chain_type(ChainTypes::AutomatedTesting);
+	let work = std::env::var("VERIF_WORK").unwrap_or_else(|_| "/verif/work/cons-known.d".to_string());
+	let _ = std::fs::remove_dir_all(&work);
+	std::fs::create_dir_all(&work).unwrap();
+	let seed = rng.bytes(32);
+	let kc = ExtKeychain::from_seed(&seed, false).unwrap();
+	let genesis = {
+		let key_id = ExtKeychain::derive_key_id(0, 1, 0, 0, 0);
+		let reward =
+			libtx::reward::output(&kc, &libtx::ProofBuilder::new(&kc), &key_id, 0, false).unwrap();
+		genesis::genesis_dev().with_reward(reward.0, reward.1)
+	};
+	let builder = open_chain(&format!("{}/builder", work), &genesis);
+	let subject = open_chain(&format!("{}/subject", work), &genesis).chain;
+	let mut kr = KnownRun {
+		stats: Stats(BTreeMap::new()),
+		roots: BTreeMap::new(),
+		oracle_fails: 0,
+		tips: vec![],
+		sync_calls: 0,
+	};
+	let sid = "s";
+	out.line(&format!("cons node {} new {}", sid, kr.fhdr(&genesis.header)), "ok");
+	kr.state(out, sid, &subject);
+	let n_blocks: u32 = if thorough { 64 } else { 15 };
+	// honest main-chain blocks by height (index 0 = genesis) and honest fork siblings (headers)
+	let mut blocks: Vec<Block> = vec![genesis.clone()];
+	let mut alts: Vec<BlockHeader> = vec![];
+	let poison_at: Vec<u32> = if thorough { vec![2, 4, 7, 10, 13, 20, 30, 55] } else { vec![4, 9, 13] };
+	for n in 1..=n_blocks {
+		let gap = match rng.below(5) {
+			0 => 1,
+			1 => rng.range(2, 30) as i64,
+			2 => 60,
+			3 => rng.range(61, 600) as i64,
+			_ => rng.range(30, 120) as i64,
+		};
+		let b = build_next(&builder.chain, &kc, n, gap);
+		let x = b.header.clone();
+		kr.roots.insert(x.prev_hash.to_vec(), x.prev_root);
+		// an honest sibling of `b` (another reward key and timestamp): a fork header
+		let alt_block = if n >= 2 && rng.chance(1, 2) {
+			Some(build_next(&builder.chain, &kc, 1000 + n, gap + 1 + rng.below(50) as i64))
+		} else {
+			None
+		};
+		let alt = alt_block.as_ref().map(|a| a.header.clone());
+		let parent_of = |h: &BlockHeader, blocks: &Vec<Block>| -> BlockHeader {
+			blocks[(h.height - 1) as usize].header.clone()
+		};
+		// victims: known headers of every kind
+		let mut victims: Vec<(&str, BlockHeader)> = vec![];
+		let top = (n - 1) as usize; // height of the subject's head
+		if top >= 1 {
+			victims.push(("head", blocks[top].header.clone()));
+		}
+		if top >= 2 {
+			victims.push(("head-prev", blocks[top - 1].header.clone()));
+		}
+		if top >= 3 {
+			let j = rng.range(1, (top - 2) as u64) as usize;
+			victims.push(("deep", blocks[j].header.clone()));
+		}
+		if top >= 53 {
+			// more than 50 below the head: `check_known_store` answers OldBlock instead of Unfit
+			let j = rng.range(1, (top - 51) as u64) as usize;
+			victims.push(("very-deep", blocks[j].header.clone()));
+		}
+		if !alts.is_empty() && rng.chance(2, 3) {
+			let a = rng.pick(&alts).clone();
+			victims.push(("fork", a));
+		}
+		// (a) the mutated copy as the last header of a batch that also extends the chain honestly
+		if let Some((cat, k)) = victims.first().cloned() {
+			let parent = parent_of(&k, &blocks);
+			let gp = if parent.height > 0 { Some(parent.prev_hash) } else { None };
+			let hh = subject.header_head().unwrap();
+			let ms = known_mutants(&k, &parent, gp, hh.total_difficulty.to_num(), rng);
+			for (kind, m) in ms.iter() {
+				let before = (kr.state(out, sid, &subject), kr.stored(out, sid, &subject, &k.hash()));
+				out.raw(&format!("# known {} {} after-new", cat, kind));
+				let mut batch = vec![];
+				if rng.chance(1, 3) {
+					batch.push(blocks[top].header.clone());
+				}
+				batch.push(x.clone());
+				batch.push(m.clone());
+				let class = kr.sync(out, sid, &subject, false, &batch);
+				let after = (kr.state(out, sid, &subject), kr.stored(out, sid, &subject, &k.hash()));
+				kr.stats.hit("cfg_after-new");
+				if class.starts_with("ok") || class == "panic" {
+					kr.fail(out, format!("mutated copy of a known header ({} {}) ending an honest extending batch: {} known={} mutated={}", cat, kind, class, show_stored(&k), show_stored(m)));
+				}
+				if before != after {
+					kr.fail(out, format!("state changed by a rejected batch ending with a mutated known header ({} {}): before={:?} after={:?}", cat, kind, before, after));
+				}
+				if subject.get_block_header(&x.hash()).is_ok() {
+					kr.fail(out, format!("header of a rejected batch was stored ({} {}): {}", cat, kind, show_stored(&x)));
+				}
+			}
+		}
+		// a NEW header with a wrong prev_root and fresh PoW: the header MMR root is checked when the
+		// fork is re-applied (batch path) resp. before the header is applied (single-header path)
+		{
+			let mut xr = x.clone();
+			xr.prev_root = Hash::from_vec(&rng.bytes(32));
+			if remine(&mut xr) {
+				let before = kr.state(out, sid, &subject);
+				out.raw("# new prev_root=random+pow");
+				let c1 = kr.sync(out, sid, &subject, false, &[xr.clone()]);
+				let c2 = kr.pbh(out, sid, &subject, false, &xr);
+				let c3 = kr.sync(out, sid, &subject, false, &[blocks[top].header.clone(), xr.clone()]);
+				let after = kr.state(out, sid, &subject);
+				kr.stats.hit("new_bad_root");
+				if c1.starts_with("ok") || c2.starts_with("ok") || c3.starts_with("ok") || before != after
+					|| subject.get_block_header(&xr.hash()).is_ok()
+				{
+					kr.fail(out, format!("new header with a wrong prev_root accepted or stored: {} {} {} {}", c1, c2, c3, show_stored(&xr)));
+				}
+			}
+		}
+		// (b)/(c) the new header (and sometimes its sibling) become known by header only
+		let alt_first = rng.chance(1, 2);
+		if let (Some(a), true) = (&alt, alt_first) {
+			kr.roots.insert(a.prev_hash.to_vec(), a.prev_root);
+			kr.pbh(out, sid, &subject, false, a);
+			kr.state(out, sid, &subject);
+		}
+		if rng.chance(1, 2) {
+			kr.sync(out, sid, &subject, false, &[x.clone()]);
+		} else {
+			kr.pbh(out, sid, &subject, false, &x);
+		}
+		kr.state(out, sid, &subject);
+		if let (Some(a), false) = (&alt, alt_first) {
+			kr.roots.insert(a.prev_hash.to_vec(), a.prev_root);
+			if rng.chance(1, 2) {
+				kr.sync(out, sid, &subject, false, &[a.clone()]);
+			} else {
+				kr.pbh(out, sid, &subject, false, a);
+			}
+			kr.state(out, sid, &subject);
+		}
+		if let Some(a) = &alt {
+			alts.push(a.clone());
+		}
+		victims.push(("header-only", x.clone()));
+		blocks.push(b.clone());
+		// (d) the sweep: every mutation x every path
+		for (cat, k) in victims.iter() {
+			let parent = parent_of(k, &blocks);
+			let gp = if parent.height > 0 { Some(parent.prev_hash) } else { None };
+			let hh = subject.header_head().unwrap();
+			let ms = known_mutants(k, &parent, gp, hh.total_difficulty.to_num(), rng);
+			kr.stats.hit(&format!("victim_{}", cat));
+			kr.stats.hit(&format!("victim_v{}", k.version.0));
+			for (kind, m) in ms.iter() {
+				kr.stats.hit(&format!("mut_{}", kind.split('&').next().unwrap()));
+				if kind.contains("td>") || kind.starts_with("td=") {
+					kr.stats.hit("claimed_td_above_header_head");
+				}
+				for cfg in ["alone", "after-known", "pbh", "pb"] {
+					// a fork sibling has no body the harness could send
+					if cfg == "pb" && *cat == "fork" {
+						continue;
+					}
+					let before = (kr.state(out, sid, &subject), kr.stored(out, sid, &subject, &k.hash()));
+					out.raw(&format!("# known {} {} {}", cat, kind, cfg));
+					kr.stats.hit(&format!("cfg_{}", cfg));
+					let class = match cfg {
+						"alone" => kr.sync(out, sid, &subject, false, &[m.clone()]),
+						"after-known" => {
+							// honest, known headers first: the victim's ancestors or the latest ones
+							let mut batch = vec![];
+							let kh = k.height as usize;
+							if rng.chance(1, 2) && kh >= 2 {
+								if kh >= 3 {
+									batch.push(blocks[kh - 2].header.clone());
+								}
+								batch.push(blocks[kh - 1].header.clone());
+							} else {
+								let t = blocks.len() - 1;
+								if t >= 2 {
+									batch.push(blocks[t - 1].header.clone());
+								}
+								batch.push(blocks[t].header.clone());
+							}
+							batch.push(m.clone());
+							kr.sync(out, sid, &subject, false, &batch)
+						}
+						"pbh" => kr.pbh(out, sid, &subject, false, m),
+						_ => kr.pb(out, sid, &subject, false, m, &blocks[k.height as usize]),
+					};
+					let after = (kr.state(out, sid, &subject), kr.stored(out, sid, &subject, &k.hash()));
+					// no path may take it for something new: the batch / block paths must refuse it,
+					// the single-header path may answer Ok ("already known") but must change nothing
+					if class == "panic" || (class.starts_with("ok") && cfg != "pbh") {
+						kr.fail(out, format!("mutated copy of a known header accepted via {} ({} {}): {} known={} mutated={}", cfg, cat, kind, class, show_stored(k), show_stored(m)));
+					}
+					if before != after {
+						kr.fail(out, format!("mutated copy of a known header changed the node via {} ({} {}): known={} mutated={} before={:?} after={:?}", cfg, cat, kind, show_stored(k), show_stored(m), before, after));
+					}
+				}
+			}
+			// (e) the unmodified known header again: harmless
+			for cfg in ["alone", "after-known", "twice", "pbh", "pb"] {
+				if cfg == "pb" && (*cat == "fork" || *cat == "header-only") {
+					continue;
+				}
+				let before = (kr.state(out, sid, &subject), kr.stored(out, sid, &subject, &k.hash()));
+				out.raw(&format!("# known {} unmodified {}", cat, cfg));
+				kr.stats.hit(&format!("resend_{}", cfg));
+				let class = match cfg {
+					"alone" => kr.sync(out, sid, &subject, false, &[k.clone()]),
+					"after-known" if parent.height > 0 => {
+						kr.sync(out, sid, &subject, false, &[parent.clone(), k.clone()])
+					}
+					"after-known" => kr.sync(out, sid, &subject, false, &[k.clone()]),
+					"twice" => kr.sync(out, sid, &subject, false, &[k.clone(), k.clone()]),
+					"pbh" => kr.pbh(out, sid, &subject, false, k),
+					_ => kr.pb(out, sid, &subject, false, k, &blocks[k.height as usize]),
+				};
+				let after = (kr.state(out, sid, &subject), kr.stored(out, sid, &subject, &k.hash()));
+				if before != after {
+					kr.fail(out, format!("re-sending an unmodified known header via {} changed the node ({}): {} before={:?} after={:?}", cfg, cat, show_stored(k), before, after));
+				}
+				if class == "panic" || (cfg != "pb" && !class.starts_with("ok")) {
+					kr.fail(out, format!("re-sending an unmodified known header via {} answered {} ({}): {}", cfg, class, cat, show_stored(k)));
+				}
+			}
+		}
+		// (f) a following honest block is still accepted and becomes the head
+		let class = kr.pb(out, sid, &subject, false, &x, &b);
+		kr.state(out, sid, &subject);
+		let hd = subject.head().unwrap();
+		if class != "ok" || hd.last_block_h != x.hash() {
+			kr.fail(out, format!("honest block at height {} not accepted after the sweep: {} head height {}", x.height, class, hd.height));
+		}
+		kr.tips.push(grin_chain::Tip::from_header(&x));
+		// the honest sibling as a full block: a fork block with equal work, the head stays
+		if let Some(ab) = &alt_block {
+			if rng.chance(1, 2) {
+				let class = kr.pb(out, sid, &subject, false, &ab.header, ab);
+				kr.state(out, sid, &subject);
+				kr.stats.hit("fork_block");
+				let hd = subject.head().unwrap();
+				if class != "ok" || hd.last_block_h != x.hash() {
+					kr.fail(out, format!("equal-work fork block at height {}: {} head height {}", x.height, class, hd.height));
+				}
+			}
+		}
+		builder.chain.process_block(b.clone(), Options::MINE).unwrap();
+		// SKIP_POW (a test-only option): the same deliveries on a scratch node, model only
+		if poison_at.contains(&n) {
+			let pid = format!("p{}", n);
+			let pc_ = open_chain(&format!("{}/{}", work, pid), &genesis).chain;
+			out.line(&format!("cons node {} new {}", pid, kr.fhdr(&genesis.header)), "ok");
+			for blk in blocks.iter().skip(1) {
+				kr.pb(out, &pid, &pc_, false, &blk.header, blk);
+			}
+			kr.state(out, &pid, &pc_);
+			let t = blocks.len() - 1;
+			let k = blocks[t].header.clone();
+			let hh_td = pc_.header_head().unwrap().total_difficulty.to_num();
+			// the header_head itself with a larger claimed total difficulty
+			let mut m = k.clone();
+			m.pow.total_difficulty = Difficulty::from_num(hh_td + rng.range(1, 1 << 30));
+			out.raw("# skip_pow known head td>header_head alone");
+			let class = kr.sync(out, &pid, &pc_, true, &[m.clone()]);
+			kr.state(out, &pid, &pc_);
+			kr.stored(out, &pid, &pc_, &m.hash());
+			let after = pc_.header_head().unwrap();
+			if class.starts_with("ok") && after.total_difficulty.to_num() != hh_td {
+				kr.stats.hit("skip_pow_known_hash_moved_header_head");
+				out.raw(&format!(
+					"# SKIP_POW only: header_head total difficulty {} -> {} by a copy of the known header {} (same proof) known={} mutated={}",
+					hh_td,
+					after.total_difficulty.to_num(),
+					h64(&k.hash()),
+					show_stored(&k),
+					show_stored(&m)
+				));
+			}
+			// a mid-chain known header with a later timestamp: stored copy replaced, head stays
+			if t >= 2 {
+				let mut m = blocks[t - 1].header.clone();
+				let t1 = m.timestamp.timestamp() + 1;
+				set_ts(&mut m, t1);
+				out.raw("# skip_pow known mid ts+1 alone");
+				kr.sync(out, &pid, &pc_, true, &[m.clone()]);
+				kr.state(out, &pid, &pc_);
+				kr.stored(out, &pid, &pc_, &m.hash());
+			}
+			// and through the other two paths
+			let mut m2 = k.clone();
+			m2.pow.total_difficulty = Difficulty::from_num(after.total_difficulty.to_num() + 5);
+			kr.pbh(out, &pid, &pc_, true, &m2);
+			kr.state(out, &pid, &pc_);
+			kr.stored(out, &pid, &pc_, &m2.hash());
+		}
+	}
+	// tail: batches of several NEW headers (the head must become the LAST one), mixed known / new
+	// batches, and a batch whose last header is an honest known one with less work
+	{
+		let mut tb: Vec<Block> = vec![];
+		for i in 0..4u32 {
+			let b = build_next(&builder.chain, &kc, n_blocks + 1 + i, rng.range(1, 200) as i64);
+			kr.roots.insert(b.header.prev_hash.to_vec(), b.header.prev_root);
+			builder.chain.process_block(b.clone(), Options::MINE).unwrap();
+			tb.push(b);
+		}
+		let th: Vec<BlockHeader> = tb.iter().map(|b| b.header.clone()).collect();
+		let top = blocks.len() - 1;
+		let k = blocks[top].header.clone();
+		let parent = blocks[top - 1].header.clone();
+		let hh = subject.header_head().unwrap();
+		let ms = known_mutants(&k, &parent, Some(parent.prev_hash), hh.total_difficulty.to_num(), rng);
+		for (kind, m) in ms.iter() {
+			let before = (kr.state(out, sid, &subject), kr.stored(out, sid, &subject, &k.hash()));
+			out.raw(&format!("# known head {} after-two-new", kind));
+			kr.stats.hit("cfg_after-two-new");
+			let class = kr.sync(out, sid, &subject, false, &[th[0].clone(), th[1].clone(), m.clone()]);
+			let after = (kr.state(out, sid, &subject), kr.stored(out, sid, &subject, &k.hash()));
+			if class.starts_with("ok") || class == "panic" || before != after {
+				kr.fail(out, format!("mutated copy of a known header after two new honest headers ({}): {} known={} mutated={} before={:?} after={:?}", kind, class, show_stored(&k), show_stored(m), before, after));
+			}
+			if subject.get_block_header(&th[0].hash()).is_ok() || subject.get_block_header(&th[1].hash()).is_ok() {
+				kr.fail(out, format!("headers of a rejected batch were stored ({})", kind));
+			}
+		}
+		let expect_head = |kr: &mut KnownRun, out: &mut Out, what: &str, want: &BlockHeader, class: &str| {
+			let hh = subject.header_head().unwrap();
+			if !class.starts_with("ok") || hh.last_block_h != want.hash() || hh.height != want.height
+				|| hh.total_difficulty != want.pow.total_difficulty
+			{
+				kr.fail(out, format!("{}: {} header_head={} wanted {}", what, class, show_tip(&hh), show_stored(want)));
+			}
+		};
+		out.raw("# tail: two new headers");
+		let c = kr.sync(out, sid, &subject, false, &[th[0].clone(), th[1].clone()]);
+		kr.state(out, sid, &subject);
+		expect_head(&mut kr, out, "batch of two new headers", &th[1], &c);
+		out.raw("# tail: known + new");
+		let c = kr.sync(out, sid, &subject, false, &[th[1].clone(), th[2].clone()]);
+		kr.state(out, sid, &subject);
+		expect_head(&mut kr, out, "batch known+new", &th[2], &c);
+		out.raw("# tail: three known");
+		let c = kr.sync(out, sid, &subject, false, &[th[0].clone(), th[1].clone(), th[2].clone()]);
+		kr.state(out, sid, &subject);
+		expect_head(&mut kr, out, "batch of three known headers", &th[2], &c);
+		out.raw("# tail: new header, then a known one with less work as the last");
+		let c = kr.sync(out, sid, &subject, false, &[th[3].clone(), th[1].clone()]);
+		kr.state(out, sid, &subject);
+		kr.stored(out, sid, &subject, &th[3].hash());
+		expect_head(&mut kr, out, "batch ending in a known header with less work", &th[2], &c);
+		out.raw("# tail: the extension again, now as the last");
+		let c = kr.sync(out, sid, &subject, false, &[th[2].clone(), th[3].clone()]);
+		kr.state(out, sid, &subject);
+		expect_head(&mut kr, out, "batch ending in the heaviest header", &th[3], &c);
+		for b in tb.iter() {
+			let class = kr.pb(out, sid, &subject, false, &b.header, b);
+			kr.state(out, sid, &subject);
+			if class != "ok" {
+				kr.fail(out, format!("honest block at height {} not accepted in the tail: {}", b.header.height, class));
+			}
+		}
+		kr.stats.hit("tail_batches");
+	}
+	if kr.oracle_fails == 0 {
+		kr.stats.hit("oracle_ok");
+	}
+	kr.stats.dump(out, "known");
+}
+
+// ---------------------------------------------------------------------------------------------
+// globals mode: thread-local configuration with global fallback (core/src/global.rs)
+// ---------------------------------------------------------------------------------------------
+
+#[derive(Clone, Copy, PartialEq, Debug)]
+enum GP {
+	Ct,
+	Fee,
+	Ftl,
+	Nrd,
+}
+impl GP {
+	fn tok(&self) -> &'static str {
+		match self {
+			GP::Ct => "ct",
+			GP::Fee => "fee",
+			GP::Ftl => "ftl",
+			GP::Nrd => "nrd",
+		}
+	}
+}
+
+#[derive(Clone, Debug)]
+enum GOp {
+	Get(GP),
+	SetL(GP, u64),
+	SetG(GP, u64),
+	InitG(GP, u64),
+	Mbw,
+	Cbm,
+	Fee,
+	Uhdr(usize),
+}
+
+fn ct_num(c: ChainTypes) -> u64 {
+	match c {
+		ChainTypes::Mainnet => 0,
+		ChainTypes::Testnet => 1,
+		ChainTypes::AutomatedTesting => 2,
+		ChainTypes::UserTesting => 3,
+	}
+}
+fn ct_of(n: u64) -> ChainTypes {
+	match n {
+		0 => ChainTypes::Mainnet,
+		1 => ChainTypes::Testnet,
+		2 => ChainTypes::AutomatedTesting,
+		_ => ChainTypes::UserTesting,
+	}
+}
+
+/// a network header prepared on the main thread
+struct Mat {
+	kind: String,
+	bytes: Vec<u8>,
+	shown: String,
+	sizeok: bool,
+	ts: i64,
+	/// valid for AutomatedTesting apart from its timestamp
+	valid: bool,
+}
+
+struct ThreadOut {
+	lines: Vec<(String, String)>,
+	fails: Vec<String>,
+	stats: Vec<String>,
+	end_sec: i64,
+}
+
+fn optv<T: ToString>(r: Option<T>) -> String {
+	r.map(|x| x.to_string()).unwrap_or("panic".into())
+}
+
+fn glob_thread(
+	ops: Vec<GOp>,
+	mats: Arc<Vec<Mat>>,
+	tx: Arc<grin_core::core::Transaction>,
+	t_sec: i64,
+) -> ThreadOut {
+	let mut o = ThreadOut {
+		lines: vec![("cons glob thread".to_string(), "ok".to_string())],
+		fails: vec![],
+		stats: vec![],
+		end_sec: 0,
+	};
+	// values of the last lookup since the parameter was last written on purpose
+	let mut last_ftl: Option<String> = None;
+	let mut last_fee: Option<String> = None;
+	let mut others_since_ftl = 0u64;
+	let mut i = 0usize;
+	let mut ops = ops;
+	while i < ops.len() {
+		let op = ops[i].clone();
+		i += 1;
+		match op {
+			GOp::Get(p) => {
+				let v = match p {
+					GP::Ct => optv(pc(|| ct_num(global::get_chain_type()))),
+					GP::Fee => optv(pc(global::get_accept_fee_base)),
+					GP::Ftl => optv(pc(global::get_future_time_limit)),
+					GP::Nrd => optv(pc(|| if global::is_nrd_enabled() { 1 } else { 0 })),
+				};
+				o.stats.push(format!("get_{}", p.tok()));
+				if p == GP::Ftl {
+					if let Some(prev) = &last_ftl {
+						o.stats.push("ftl_relookup".into());
+						if others_since_ftl > 0 {
+							o.stats.push("ftl_relookup_after_others".into());
+						}
+						if *prev != v {
+							o.fails.push(format!(
+								"get_future_time_limit() changed from {} to {} with only other lookups in between ({} of them)",
+								prev, v, others_since_ftl
+							));
+						}
+					} else {
+						o.stats.push(format!("ftl_first_by_get={}", v));
+					}
+					last_ftl = Some(v.clone());
+					others_since_ftl = 0;
+				} else {
+					others_since_ftl += 1;
+				}
+				if p == GP::Fee {
+					if let Some(prev) = &last_fee {
+						if *prev != v {
+							o.fails.push(format!(
+								"get_accept_fee_base() changed from {} to {} with only other lookups in between",
+								prev, v
+							));
+						}
+					}
+					last_fee = Some(v.clone());
+				}
+				o.lines.push((format!("cons glob get {}", p.tok()), v));
+			}
+			GOp::SetL(p, v) => {
+				match p {
+					GP::Ct => global::set_local_chain_type(ct_of(v)),
+					GP::Fee => global::set_local_accept_fee_base(v),
+					GP::Ftl => global::set_local_future_time_limit(v),
+					GP::Nrd => global::set_local_nrd_enabled(v != 0),
+				}
+				if p == GP::Ftl {
+					last_ftl = None;
+				}
+				if p == GP::Fee {
+					last_fee = None;
+				}
+				o.stats.push(format!("setl_{}", p.tok()));
+				o.lines.push((format!("cons glob setl {} {}", p.tok(), v), "ok".into()));
+			}
+			GOp::SetG(p, v) => {
+				match p {
+					GP::Ct => global::set_global_chain_type(ct_of(v)),
+					GP::Fee => global::set_global_accept_fee_base(v),
+					GP::Ftl => global::set_global_future_time_limit(v),
+					GP::Nrd => global::set_global_nrd_enabled(v != 0),
+				}
+				if p == GP::Ftl {
+					last_ftl = None;
+				}
+				if p == GP::Fee {
+					last_fee = None;
+				}
+				o.stats.push(format!("setg_{}", p.tok()));
+				o.lines.push((format!("cons glob setg {} {}", p.tok(), v), "ok".into()));
+			}
+			GOp::InitG(p, v) => {
+				let r = pc(|| match p {
+					GP::Ct => global::init_global_chain_type(ct_of(v)),
+					GP::Fee => global::init_global_accept_fee_base(v),
+					GP::Ftl => global::init_global_future_time_limit(v),
+					GP::Nrd => global::init_global_nrd_enabled(v != 0),
+				});
+				if p == GP::Ftl {
+					last_ftl = None;
+				}
+				if p == GP::Fee {
+					last_fee = None;
+				}
+				let res = if r.is_some() { "ok" } else { "panic" };
+				o.stats.push(format!("initg_{}", res));
+				o.lines.push((format!("cons glob initg {} {}", p.tok(), v), res.into()));
+			}
+			GOp::Mbw => {
+				others_since_ftl += 1;
+				o.stats.push("max_block_weight".into());
+				o.lines.push(("cons glob mbw".into(), optv(pc(global::max_block_weight))));
+			}
+			GOp::Cbm => {
+				others_since_ftl += 1;
+				o.stats.push("coinbase_maturity".into());
+				o.lines.push(("cons glob cbm".into(), optv(pc(global::coinbase_maturity))));
+			}
+			GOp::Fee => {
+				others_since_ftl += 1;
+				o.stats.push("accept_fee".into());
+				let w = tx.weight();
+				o.lines
+					.push((format!("cons glob fee {}", w), optv(pc(|| tx.accept_fee()))));
+			}
+			GOp::Uhdr(k) => {
+				let m = &mats[k];
+				let first = last_ftl.is_none();
+				let r = pc(|| {
+					ser::deserialize::<UntrustedBlockHeader, _>(
+						&mut &m.bytes[..],
+						ProtocolVersion::local(),
+						DeserializationMode::default(),
+					)
+				});
+				let class = match r {
+					None => "panic".to_string(),
+					Some(Ok(_)) => "ok".to_string(),
+					Some(Err(ser::Error::InvalidBlockVersion)) => "InvalidBlockVersion".to_string(),
+					Some(Err(ser::Error::CorruptedData)) => "CorruptedData".to_string(),
+					Some(Err(e)) => format!("Other:{:?}", e).replace(' ', "_"),
+				};
+				o.stats.push(format!("uhdr_{}_{}", m.kind, class));
+				if first {
+					o.stats.push("ftl_first_by_decode".into());
+				}
+				o.lines.push((
+					format!(
+						"cons glob uhdr {} {} {}",
+						t_sec,
+						if m.sizeok { 1 } else { 0 },
+						m.shown
+					),
+					class.clone(),
+				));
+				// what the limit is on this thread, asked right after the decode
+				let ftl = pc(global::get_future_time_limit);
+				let v = optv(ftl);
+				if let Some(prev) = &last_ftl {
+					if *prev != v {
+						o.fails.push(format!(
+							"get_future_time_limit() changed from {} to {} across a header decode",
+							prev, v
+						));
+					}
+				}
+				last_ftl = Some(v.clone());
+				others_since_ftl = 0;
+				o.lines.push(("cons glob get ftl".into(), v));
+				if let Some(f) = ftl {
+					let beyond = m.ts > t_sec + f as i64;
+					if class == "ok" && beyond {
+						o.fails.push(format!(
+							"header beyond the future-time limit decoded from the network: now={} ftl={} ts={} ({}) hdr={}",
+							t_sec, f, m.ts, m.kind, m.shown
+						));
+					}
+					let ct_auto = pc(global::get_chain_type) == Some(ChainTypes::AutomatedTesting);
+					if ct_auto && m.valid && !beyond && class != "ok" {
+						o.fails.push(format!(
+							"valid header within the future-time limit refused ({}): now={} ftl={} ts={} ({}) hdr={}",
+							class, t_sec, f, m.ts, m.kind, m.shown
+						));
+					}
+					if ct_auto {
+						o.stats.push(if beyond { "verdict_beyond".into() } else { "verdict_within".into() });
+					}
+				}
+			}
+		}
+	}
+	ops.clear();
+	o.end_sec = Utc::now().timestamp();
+	o
+}
+
+fn mine_net_header(ts: i64, mine: bool, version: u16) -> Option<BlockHeader> {
+	let mut h = BlockHeader::default();
+	h.height = 1;
+	h.version = HeaderVersion(version);
+	set_ts(&mut h, ts);
+	h.output_mmr_size = 1;
+	h.kernel_mmr_size = 1;
+	h.pow.total_difficulty = Difficulty::from_num(2);
+	h.pow.secondary_scaling = global::initial_graph_weight();
+	let eb = global::min_edge_bits();
+	h.pow.proof.edge_bits = eb;
+	if mine {
+		if !remine(&mut h) {
+			return None;
+		}
+	} else {
+		h.pow.proof.nonces = (0..global::proofsize() as u64).map(|i| i * 3 + 1).collect();
+	}
+	Some(h)
+}
+
+fn run_globals(out: &mut Out, rng: &mut Rng, thorough: bool) {
+	// the main thread prepares material under a local chain type; the subject threads are fresh
+	global::set_local_chain_type(ChainTypes::AutomatedTesting);
+	let mut stats = Stats(BTreeMap::new());
+	let kc = ExtKeychain::from_seed(&rng.bytes(32), false).unwrap();
+	let key = |d: u32| ExtKeychainPath::new(2, d, 0, 0, 0).to_identifier();
+	let tx = Arc::new(
+		libtx::build::transaction(
+			grin_core::core::KernelFeatures::Plain { fee: 2_000_000u32.into() },
+			&[
+				libtx::build::input(10_000_000, key(1)),
+				libtx::build::output(5_000_000, key(2)),
+				libtx::build::output(3_000_000, key(3)),
+			],
+			&kc,
+			&libtx::ProofBuilder::new(&kc),
+		)
+		.unwrap(),
+	);
+	let groups = if thorough { 12 } else { 4 };
+	let threads_per_group = if thorough { 60 } else { 40 };
+	let ftl_pool: Vec<u64> = vec![0, 1, 59, 299, 301, 720, 3_605, 86_407, 100_000, 432_100, 500_000];
+	// what the process-wide values are (the harness sets them itself, in order)
+	let mut g_ftl: Option<u64> = None;
+	let mut g_ct = false;
+	let mut scripted_done = false;
+	let mut retries = 0u64;
+	let mut total_fails = 0u64;
+	let mut g = 0usize;
+	let mut done_groups = 0usize;
+	while done_groups < groups && retries < 20 {
+		// the limits that can be in force somewhere in this group
+		let a = *rng.pick(&ftl_pool);
+		let b = *rng.pick(&ftl_pool);
+		let mut cands: Vec<u64> = vec![global::DEFAULT_FUTURE_TIME_LIMIT, a, b];
+		if let Some(x) = g_ftl {
+			cands.push(x);
+		}
+		cands.sort();
+		cands.dedup();
+		let now_s = Utc::now().timestamp();
+		let t_sec = now_s + 2;
+		let mut mats: Vec<Mat> = vec![];
+		let mut push = |kind: String, ts: i64, mine: bool, version: u16, valid: bool| {
+			if let Some(h) = mine_net_header(ts, mine, version) {
+				let bytes = ser::ser_vec(&h, ProtocolVersion::local()).unwrap();
+				let sizeok = pc(|| pow::verify_size(&h).is_ok()).unwrap_or(false);
+				mats.push(Mat {
+					kind,
+					bytes,
+					shown: show_hdr(&h),
+					sizeok,
+					ts,
+					valid: valid && sizeok,
+				});
+			}
+		};
+		for f in cands.iter() {
+			push("ftl-1s".into(), t_sec + *f as i64 - 1, true, 1, true);
+			push("ftl+0s".into(), t_sec + *f as i64, true, 1, true);
+			push("ftl+1s".into(), t_sec + *f as i64 + 1, true, 1, true);
+		}
+		push("+1h".into(), t_sec + 3_600, true, 1, true);
+		push("+1day".into(), t_sec + 86_400, true, 1, true);
+		push("+5days".into(), t_sec + 432_000, true, 1, true);
+		// just inside what the accept-fee base (500000) would allow if the cells were mixed up
+		push("+feebase-1s".into(), t_sec + global::DEFAULT_ACCEPT_FEE_BASE as i64 - 1, true, 1, true);
+		push("past".into(), t_sec - 100, true, 1, true);
+		push("now-badpow".into(), t_sec - 1, false, 1, false);
+		push("now-version2".into(), t_sec - 1, true, 2, false);
+		let mats = Arc::new(mats);
+		// plans
+		let mut plans: Vec<(String, Vec<GOp>)> = vec![];
+		let mut group_has_scripted = false;
+		for ti in 0..threads_per_group {
+			let mut ops: Vec<GOp> = vec![];
+			let kind = if g == 0 && ti < 4 {
+				"no-chain-type"
+			} else if g >= 2 && g_ct && rng.chance(1, 3) {
+				"global-chain-type"
+			} else {
+				match rng.below(10) {
+					0..=4 => "pure",
+					5..=6 => "local-others",
+					7 => "local-ftl",
+					8 => "no-decode",
+					_ => "pure",
+				}
+			};
+			// process-wide values: never in the first group (defaults), then now and again
+			let mut setg: Vec<GOp> = vec![];
+			if g == 1 && ti == 0 {
+				setg.push(GOp::InitG(GP::Ftl, a));
+				setg.push(GOp::SetG(GP::Fee, 1 + rng.below(2_000_000)));
+			} else if g == 1 && ti == threads_per_group / 2 {
+				setg.push(GOp::InitG(GP::Ftl, b)); // panics: already initialised
+				setg.push(GOp::SetG(GP::Ftl, b));
+				setg.push(GOp::InitG(GP::Nrd, 1));
+			} else if g == 2 && ti == 0 {
+				setg.push(GOp::SetG(GP::Ct, 2));
+				setg.push(GOp::InitG(GP::Fee, 7));
+			} else if g >= 2 && rng.chance(1, 12) {
+				match rng.below(3) {
+					0 => setg.push(GOp::SetG(GP::Ftl, *rng.pick(&[a, b]))),
+					1 => setg.push(GOp::SetG(GP::Fee, 1 + rng.below(2_000_000))),
+					_ => setg.push(GOp::SetG(GP::Nrd, rng.below(2))),
+				}
+			}
+			for op in setg.iter() {
+				match op {
+					GOp::SetG(GP::Ftl, v) => g_ftl = Some(*v),
+					GOp::InitG(GP::Ftl, v) if g_ftl.is_none() => g_ftl = Some(*v),
+					GOp::SetG(GP::Ct, _) => g_ct = true,
+					_ => {}
+				}
+			}
+			if kind != "no-chain-type" && kind != "global-chain-type" {
+				ops.push(GOp::SetL(GP::Ct, 2));
+			}
+			// scripted threads: what a getter caches (and what it does not) when the process-wide
+			// value changes after the first lookup on the thread
+			if g_ct && !scripted_done && (1..=4).contains(&ti) {
+				group_has_scripted = true;
+				let i0 = rng.below(mats.len() as u64) as usize;
+				let i1 = rng.below(mats.len() as u64) as usize;
+				let (k2, ops2): (&str, Vec<GOp>) = match ti {
+					1 => (
+						"cache-nrd",
+						vec![
+							GOp::Get(GP::Nrd),
+							GOp::SetG(GP::Nrd, 1),
+							GOp::Get(GP::Nrd),
+							GOp::SetG(GP::Nrd, 0),
+							GOp::Get(GP::Nrd),
+							GOp::Get(GP::Ftl),
+						],
+					),
+					2 => (
+						"cache-ct",
+						vec![
+							GOp::Get(GP::Ct),
+							GOp::SetG(GP::Ct, 3),
+							GOp::Get(GP::Ct),
+							GOp::Mbw,
+							GOp::Uhdr(i0),
+							GOp::SetG(GP::Ct, 2),
+							GOp::Cbm,
+						],
+					),
+					3 => (
+						"cache-ftl",
+						vec![
+							GOp::Uhdr(i0),
+							GOp::SetG(GP::Ftl, a),
+							GOp::Get(GP::Ftl),
+							GOp::Uhdr(i1),
+							GOp::SetG(GP::Ftl, b),
+							GOp::Uhdr(i0),
+						],
+					),
+					_ => (
+						"cache-fee",
+						vec![
+							GOp::Fee,
+							GOp::SetG(GP::Fee, 1 + rng.below(2_000_000)),
+							GOp::Get(GP::Fee),
+							GOp::Fee,
+							GOp::Uhdr(i0),
+						],
+					),
+				};
+				g_ftl = Some(b);
+				plans.push((k2.to_string(), ops2));
+				continue;
+			}
+			if g == 0 && ti == threads_per_group - 1 {
+				// the default of the NRD flag is not cached: the first process-wide value shows
+				plans.push((
+					"cache-nrd-default".to_string(),
+					vec![
+						GOp::SetL(GP::Ct, 2),
+						GOp::Get(GP::Nrd),
+						GOp::Get(GP::Ftl),
+						GOp::InitG(GP::Nrd, 1),
+						GOp::Get(GP::Nrd),
+						GOp::Get(GP::Ftl),
+					],
+				));
+				continue;
+			}
+			let n_ops = rng.range(12, 40);
+			let mut decode_ok = kind != "no-decode";
+			let setg_at = rng.below(n_ops);
+			for j in 0..n_ops {
+				if j == setg_at {
+					ops.extend(setg.iter().cloned());
+				}
+				let r = rng.below(100);
+				let op = if r < 30 && decode_ok {
+					GOp::Uhdr(rng.below(mats.len() as u64) as usize)
+				} else if r < 40 {
+					GOp::Get(GP::Ftl)
+				} else if r < 52 {
+					GOp::Get(GP::Fee)
+				} else if r < 62 {
+					GOp::Fee
+				} else if r < 70 {
+					GOp::Get(GP::Nrd)
+				} else if r < 78 {
+					GOp::Mbw
+				} else if r < 86 {
+					GOp::Cbm
+				} else if r < 92 {
+					GOp::Get(GP::Ct)
+				} else {
+					match kind {
+						"local-others" => match rng.below(2) {
+							0 => GOp::SetL(GP::Fee, 1 + rng.below(2_000_000)),
+							_ => GOp::SetL(GP::Nrd, rng.below(2)),
+						},
+						"local-ftl" => GOp::SetL(GP::Ftl, *rng.pick(&[a, b])),
+						"no-decode" => {
+							// another chain type: only where no header is decoded afterwards
+							decode_ok = false;
+							GOp::SetL(GP::Ct, rng.below(4))
+						}
+						_ => GOp::Get(GP::Fee),
+					}
+				};
+				ops.push(op);
+			}
+			plans.push((kind.to_string(), ops));
+		}
+		// all threads of the group run inside wall-clock second t_sec
+		while Utc::now().timestamp() < t_sec {
+			std::thread::sleep(std::time::Duration::from_millis(2));
+		}
+		let mut outs: Vec<(String, ThreadOut)> = vec![];
+		let mut in_time = true;
+		for (kind, ops) in plans {
+			let (m, t) = (mats.clone(), tx.clone());
+			let r = std::thread::spawn(move || glob_thread(ops, m, t, t_sec)).join();
+			match r {
+				Ok(o) => {
+					if o.end_sec != t_sec {
+						in_time = false;
+					}
+					outs.push((kind, o));
+				}
+				Err(_) => {
+					in_time = false;
+				}
+			}
+			if !in_time {
+				break;
+			}
+		}
+		g += 1;
+		if !in_time {
+			// the second rolled over (or mining took too long): nothing of this group is printed;
+			// process-wide values it set stay set, so later groups are not "defaults only" any more
+			retries += 1;
+			stats.hit("group_discarded_clock");
+			// the model must still follow the process-wide writes that happened
+			for (_, o) in outs.iter() {
+				for (l, r) in o.lines.iter() {
+					if l.starts_with("cons glob setg") || (l.starts_with("cons glob initg") && r == "ok") {
+						out.line(l, r);
+					}
+				}
+			}
+			continue;
+		}
+		done_groups += 1;
+		if group_has_scripted {
+			scripted_done = true;
+		}
+		for (kind, o) in outs {
+			stats.hit(&format!("thread_{}", kind));
+			out.raw(&format!("# thread kind={} group={} now={}", kind, g - 1, t_sec));
+			for (l, r) in o.lines.iter() {
+				out.line(l, r);
+			}
+			for st in o.stats.iter() {
+				stats.hit(st);
+			}
+			for f in o.fails.iter() {
+				total_fails += 1;
+				out.raw(&format!("#ORACLE-FAIL C04 [thread kind={} group={}] {}", kind, g - 1, f));
+			}
+		}
+	}
+	if done_groups < groups {
+		out.raw(&format!(
+			"#ORACLE-FAIL C04 globals run could not keep {} groups inside one wall-clock second each ({} done)",
+			groups, done_groups
+		));
+	}
+	if total_fails == 0 {
+		stats.hit("oracle_ok");
+	}
+	stats.dump(out, "globals");
+}
+
 fn untrusted_lines(out: &mut Out, stats: &mut Stats, v: &BlockHeader, rng: &mut Rng) {
 	let ftl = *rng.pick(&[0u64, 300, 720, 100_000]);
 	global::set_local_future_time_limit(ftl);
@@ -1033,6 +2267,8 @@ fn main() {
 	match mode {
 		"diff" => run_diff(&mut out, &mut rng, thorough),
 		"chain" => run_chain(&mut out, &mut rng, thorough),
+		"known" => run_known(&mut out, &mut rng, thorough),
+		"globals" => run_globals(&mut out, &mut rng, thorough),
 		_ => {
 			eprintln!("usage: cons diff|chain");
 			std::process::exit(2);
